@@ -28,6 +28,13 @@ ADOPT = [("C10", ["C10-e"], "the extra gradient is placed with the indices recor
 M = "gemclus.mlcl"
 
 
+def _parents_c14(n):
+    n = getattr(n, "_parent", None)
+    while n is not None:
+        yield n
+        n = getattr(n, "_parent", None)
+
+
 def _both_orientations(test):
     """(x == p and y == q) or (x == q and y == p) for two distinct pairs of operands, whatever their names; also inside any(... for ... in ...).
     True / False (a recognisable test of another shape, e.g. one orientation only) / None (not recognised)"""
@@ -203,7 +210,36 @@ def run(pm, ctx):
                           "the two constraint lists are not validated by the same shape / self-pair checks" if not ok else "shape or self-pair check weakened",
                           line=lf.lineno, site=site)
     else:
-        ctx.violation("C14-c", u.relpath, "_check_linking_constraint", "validation blocks", "cannot find the validation block of each list", line=lf.lineno, site=site)
+        # both lists validated by one shared helper: must_link = H(must_link, ...); cannot_link = H(cannot_link, ...)
+        calls = {}
+        for s in lf.body:
+            if isinstance(s, ast.Assign) and len(s.targets) == 1 and isinstance(s.targets[0], ast.Name) and s.targets[0].id in ("must_link", "cannot_link") \
+                    and isinstance(s.value, ast.Call) and isinstance(s.value.func, ast.Name) and s.value.args and norm_src(s.value.args[0]) == s.targets[0].id:
+                calls[s.targets[0].id] = s.value
+        helper = None
+        if set(calls) == {"must_link", "cannot_link"} and calls["must_link"].func.id == calls["cannot_link"].func.id:
+            try:
+                helper = u.func(calls["must_link"].func.id)
+            except Exception:
+                helper = None
+        if helper is None:
+            ctx.unrecognised("C14-c", site, "neither one validation block per list nor one shared validation helper applied to both lists")
+        else:
+            hp = func_params(helper)[0]
+            ca = [n for n in ast.walk(helper) if isinstance(n, ast.Call) and call_name(n) == "check_array" and n.args and norm_src(n.args[0]) == hp]
+            kw = {k.arg: norm_src(k.value) for k in ca[0].keywords} if ca else {}
+            okkw = kw.get("ensure_2d") == "True" and kw.get("ensure_min_features") == "2" and kw.get("dtype") == "int"
+            selfp = [n for n in ast.walk(helper) if isinstance(n, ast.If) and "[:, 0] == " in norm_src(n.test) and n.body and isinstance(n.body[-1], ast.Raise)]
+            # the only path around the checks is the one for a missing list
+            early = [n for n in ast.walk(helper) if isinstance(n, ast.Return) and n is not helper.body[-1]]
+            early_ok = all(any(isinstance(p_, ast.If) and norm_src(p_.test) == f"{hp} is None" for p_ in _parents_c14(n)) for n in early)
+            if okkw and selfp and early_ok:
+                ctx.ok("C14-c", site, f"must-link and cannot-link validated by the same helper {helper.name} (2-D, >= 2 columns, int, no self pair)")
+                ctx.ok("C14-c", "_check_linking_constraint: self pairs raise")
+                ctx.ok("C14-c", "_check_linking_constraint: check_array(ensure_2d, ensure_min_features=2, dtype=int)")
+            else:
+                ctx.violation("C14-c", u.relpath, helper.name, norm_src(ca[0])[:160] if ca else "check_array", "shape or self-pair check weakened in the shared validation helper",
+                              line=helper.lineno, site=site)
     st = [s for s in lf.body if isinstance(s, ast.If) and "_check_structural_constraint" in norm_src(s)]
     site = "_check_linking_constraint: contradiction check"
     if st and norm_src(st[0].test) in ("len(must_link) > 0 and len(cannot_link) > 0", "len(cannot_link) > 0 and len(must_link) > 0") and lf.body[-1] is st[0] \
